@@ -1,6 +1,7 @@
 mod c10;
 mod c11;
 mod c19;
+mod c19s;
 mod ha;
 
 fn main() {
